@@ -418,6 +418,11 @@ func caseGoroutineFrames(tb string) []string {
 
 // classifyDeath turns the stderr text of a dead worker into a failure.
 func classifyDeath(stderr string) Failure {
+	// stack samples taken while the case was merely slow precede the fatal traceback in the log: they show where the case
+	// was then, not where it died
+	if i := strings.LastIndex(stderr, "=== C07-SAMPLE-END ==="); i >= 0 {
+		stderr = stderr[i+len("=== C07-SAMPLE-END ==="):]
+	}
 	f := Failure{Kind: "death-other"}
 	lines := strings.Split(stderr, "\n")
 	for _, ln := range lines {
